@@ -358,9 +358,21 @@ func fieldNameV(names ...string) VM {
 	}
 }
 
+// paramBind maps parameters of a predicate helper that is being looked into
+// (Engine.holds) to the argument values of the call under examination, so
+// that value matchers phrased over the caller's values (m.From, r.replicaID)
+// see through `helper(m.From)`. Single-threaded use only.
+var paramBind = map[*ssa.Parameter]ssa.Value{}
+
 func stripConv(v ssa.Value) ssa.Value {
 	for {
 		switch x := v.(type) {
+		case *ssa.Parameter:
+			if b, ok := paramBind[x]; ok && b != v {
+				v = b
+				continue
+			}
+			return v
 		case *ssa.Convert:
 			v = x.X
 		case *ssa.ChangeType:
